@@ -90,6 +90,9 @@ func (c *RawEVMConfig) Validate() error {
 	if c.BlockConfirmations < 1 {
 		return fmt.Errorf("blockConfirmations has to be >=1")
 	}
+	if c.BlockInterval < 1 {
+		return fmt.Errorf("blockInterval has to be >=1")
+	}
 	return nil
 }
 
